@@ -339,6 +339,21 @@ def run_tie_part(ctx, spec, replay_file=None):
     res["lines"] = len(ops)
     res["stats"] = json.load(open(os.path.join(outdir, "stats.json")))
     res["findings"] = json.load(open(os.path.join(outdir, "oracle.json")))
+    # attach the op lines of the failing case to (the first few distinct) oracle findings, so that the replay
+    # file re-executes exactly that case
+    try:
+        all_cases = split_cases(ops)
+        seen_sigs = set()
+        for f in res["findings"]:
+            key = json.dumps(f.get("signature") or {}, sort_keys=True)
+            if key in seen_sigs or len(seen_sigs) >= 12:
+                continue
+            seen_sigs.add(key)
+            c = f.get("case")
+            if isinstance(c, int) and 1 <= c <= len(all_cases):
+                f["ops"] = [ops[j] for j in all_cases[c - 1][1]][:2000]
+    except Exception as e:  # never let bookkeeping hide a finding
+        ctx.notes.append(f"could not attach case ops: {e}")
     if spec.get("driver"):
         drv = os.path.join(LEAN, ".lake", "build", "bin", spec["driver"])
         if not os.path.exists(drv):
@@ -399,7 +414,7 @@ def decide(ctx, spec, proof, tie):
         n += 1
         p = write_replay(ctx, n, {"property": ctx.pid, "seed": ctx.seed, "tier": ctx.tier, "kind": "input",
                                   "property_oracle": {"name": f["oracle"], "failed": True, "detail": f["detail"]},
-                                  "case": f.get("case"), "signature": f.get("signature"),
+                                  "case": f.get("case"), "signature": f.get("signature"), "ops": f.get("ops"),
                                   "broken_obligations": ctx.obligation_failures,
                                   "mismatches": tie["mismatches"][:2]})
         print(f"VIOLATION property={ctx.pid} replay={p}", flush=True)
